@@ -92,45 +92,43 @@ def step (st : St) (line : String) : St × String :=
   | ["s128.set_key", n, k, sz] =>
     match optBytes k, (if n = "NULL" then none else st.k128[n]?) with
     | some key, some ks =>
-      let (r, ks') := setKey (ops128 bd.tag) p128 ks key sz.toNat! (junkOf 128 st.junk) (junkOf 128 st.junk)
+      let (r, ks') := setKey (ops128 bd.tag) guards128 p128 ks key sz.toNat! (junkOf 128 st.junk) (junkOf 128 st.junk)
       ({ st with k128 := st.k128.insert n ks' }, retLine r)
     | some _, none => (st, retLine 0)
     | _, _ => (st, "bad-op")
   | ["s64.set_key", n, k, sz] =>
     match optBytes k, (if n = "NULL" then none else st.k64[n]?) with
     | some key, some ks =>
-      let (r, ks') := setKey (ops64 bd.tag) p64 ks key sz.toNat! (junkOf 64 st.junk) (junkOf 64 st.junk)
+      let (r, ks') := setKey (ops64 bd.tag) guards64 p64 ks key sz.toNat! (junkOf 64 st.junk) (junkOf 64 st.junk)
       ({ st with k64 := st.k64.insert n ks' }, retLine r)
     | some _, none => (st, retLine 0)
     | _, _ => (st, "bad-op")
   | ["s128.set_tweaked_key", n, k, sz] =>
     match optBytes k, (if n = "NULL" then none else st.t128[n]?) with
     | some key, some tk =>
-      let (r, tk') := setTweakedKey (ops128 bd.tag) p128 tk key sz.toNat! (junkOf 128 st.junk) (junkOf 128 st.junk)
+      let (r, tk') := setTweakedKey (ops128 bd.tag) guards128 p128 tk key sz.toNat! (junkOf 128 st.junk) (junkOf 128 st.junk)
       ({ st with t128 := st.t128.insert n tk' }, retLine r)
     | some _, none => (st, retLine 0)
     | _, _ => (st, "bad-op")
   | ["s64.set_tweaked_key", n, k, sz] =>
     match optBytes k, (if n = "NULL" then none else st.t64[n]?) with
     | some key, some tk =>
-      let (r, tk') := setTweakedKey (ops64 bd.tag) p64 tk key sz.toNat! (junkOf 64 st.junk) (junkOf 64 st.junk)
+      let (r, tk') := setTweakedKey (ops64 bd.tag) guards64 p64 tk key sz.toNat! (junkOf 64 st.junk) (junkOf 64 st.junk)
       ({ st with t64 := st.t64.insert n tk' }, retLine r)
     | some _, none => (st, retLine 0)
     | _, _ => (st, "bad-op")
   | ["s128.set_tweak", n, t, sz] =>
     match optBytes t, (if n = "NULL" then none else st.t128[n]?) with
     | some tw, some tk =>
-      match setTweak (ops128 bd.tag) p128 bd.setTweakNullOk tk tw sz.toNat! with
-      | .ok (r, tk') => ({ st with t128 := st.t128.insert n tk' }, retLine r)
-      | .error _ => fault
+      let (r, tk') := setTweak (ops128 bd.tag) guards128 p128 tk tw sz.toNat!
+      ({ st with t128 := st.t128.insert n tk' }, retLine r)
     | some _, none => (st, retLine 0)
     | _, _ => (st, "bad-op")
   | ["s64.set_tweak", n, t, sz] =>
     match optBytes t, (if n = "NULL" then none else st.t64[n]?) with
     | some tw, some tk =>
-      match setTweak (ops64 bd.tag) p64 bd.setTweakNullOk tk tw sz.toNat! with
-      | .ok (r, tk') => ({ st with t64 := st.t64.insert n tk' }, retLine r)
-      | .error _ => fault
+      let (r, tk') := setTweak (ops64 bd.tag) guards64 p64 tk tw sz.toNat!
+      ({ st with t64 := st.t64.insert n tk' }, retLine r)
     | some _, none => (st, retLine 0)
     | _, _ => (st, "bad-op")
   | [op, n, x] =>
